@@ -199,21 +199,43 @@ pub fn run_twin(h: &[Op]) -> Result<(), String> {
     Ok(())
 }
 
-fn report(rep: &mut Report, h: &[Op], twin: bool, e: String) {
+thread_local! {
+    /// the history this worker executed just before the current one (on the same thread, its
+    /// instances dead by now): state kept outside the objects can leak from it into the next one
+    static PREVIOUS: std::cell::RefCell<Option<(Vec<Op>, bool)>> = const { std::cell::RefCell::new(None) };
+}
+
+fn remember(h: &[Op], twin: bool) {
+    PREVIOUS.with(|p| *p.borrow_mut() = Some((h.to_vec(), twin)));
+}
+
+fn report(rep: &mut Report, h: &[Op], twin: bool, e: String, previous: Option<(Vec<Op>, bool)>) {
     let again = if twin { run_twin(h) } else { run_history(h) };
+    let r = render(h);
+    let head = if twin { "sequential-twin" } else { "sequential" };
+    let mut preceded = String::new();
     if again.is_ok() {
-        // process-global state in the code under test may make a second run take another path
-        let r = render(h);
-        let text = format!("{}: {}\nobserved: {}\n", if twin { "sequential-twin" } else { "sequential" }, r, e);
+        // process-global or per-thread state in the code under test may make a second run take
+        // another path: first the history on its own in a fresh process, then the history preceded
+        // by the one this worker ran just before it (whose instances are dead, but whose traces in a
+        // static or thread-local may not be)
+        let text = format!("{}: {}\nobserved: {}\n", head, r, e);
         if !reproduces_in_fresh_process("C13", &text) {
-            machinery_failure("C13 sequential violation did not reproduce");
+            let Some((prev, prev_twin)) = previous else {
+                machinery_failure("C13 sequential violation did not reproduce");
+            };
+            preceded = format!("preceded-by{}: {}\n", if prev_twin { "-twin" } else { "" }, render(&prev));
+            let text = format!("{}: {}\n{}observed: {}\n", head, r, preceded, e);
+            if !reproduces_in_fresh_process("C13", &text) {
+                machinery_failure("C13 sequential violation did not reproduce (alone, in a fresh process, or after the preceding history)");
+            }
         }
     }
-    let r = render(h);
+    let after = if preceded.is_empty() { String::new() } else { format!(" (run on the thread that had just finished [{}] on instances that no longer exist)", preceded.trim().splitn(2, ": ").nth(1).unwrap_or("")) };
     if twin {
-        rep.violation(Violation { key: format!("C13:seq-twin:{}", r.replace(' ', "")), summary: format!("two AtomicBaseTime instances used alternately by one thread, A runs [{}], B the same rotated by one: {}", r, e), replay_text: format!("sequential-twin: {}\nobserved: {}\n", r, e) });
+        rep.violation(Violation { key: format!("C13:seq-twin:{}", r.replace(' ', "")), summary: format!("two AtomicBaseTime instances used alternately by one thread, A runs [{}], B the same rotated by one{}: {}", r, after, e), replay_text: format!("sequential-twin: {}\n{}observed: {}\n", r, preceded, e) });
     } else {
-        rep.violation(Violation { key: format!("C13:seq:{}", r.replace(' ', "")), summary: format!("AtomicBaseTime, one thread [{}]: {}", r, e), replay_text: format!("sequential: {}\nobserved: {}\n", r, e) });
+        rep.violation(Violation { key: format!("C13:seq:{}", r.replace(' ', "")), summary: format!("AtomicBaseTime, one thread [{}]{}: {}", r, after, e), replay_text: format!("sequential: {}\n{}observed: {}\n", r, preceded, e) });
     }
 }
 
@@ -245,11 +267,17 @@ pub fn run(ctx: &Ctx) -> Report {
                     if len >= 2 && len < depth {
                         rep.evaluations += 1;
                         rep.transitions += 2 * len as u64;
-                        if let Err(e) = run_twin(&h) {
-                            report(&mut rep, &h, true, e);
+                        let prev = PREVIOUS.with(|p| p.borrow().clone());
+                        let r = run_twin(&h);
+                        remember(&h, true);
+                        if let Err(e) = r {
+                            report(&mut rep, &h, true, e, prev);
                         }
                     }
-                    match run_history(&h) {
+                    let prev = PREVIOUS.with(|p| p.borrow().clone());
+                    let result = run_history(&h);
+                    remember(&h, false);
+                    match result {
                         Ok(()) => {
                             if len == depth {
                                 rep.outcome(hash_of(&h.iter().filter(|o| matches!(o, Op::Update(_) | Op::TryUpdate(_))).count()));
@@ -260,7 +288,7 @@ pub fn run(ctx: &Ctx) -> Report {
                             if !e.starts_with(&format!("step {} ", len)) && !e.starts_with("after the history") {
                                 continue;
                             }
-                            report(&mut rep, &h, false, e);
+                            report(&mut rep, &h, false, e, prev);
                         }
                     }
                 }
@@ -289,15 +317,20 @@ pub fn run(ctx: &Ctx) -> Report {
             cycles += 1;
             rep.evaluations += 2;
             rep.transitions += 3 * h.len() as u64;
-            if let Err(e) = run_history(&h) {
+            let prev = PREVIOUS.with(|p| p.borrow().clone());
+            let first = run_history(&h);
+            remember(&h, false);
+            if let Err(e) = first {
                 let at = e.strip_prefix("step ").and_then(|r| r.split(' ').next()).and_then(|k| k.parse::<usize>().ok()).unwrap_or(h.len());
                 let cut = h[..at.min(h.len())].to_vec();
-                let e2 = run_history(&cut).err().unwrap_or(e);
-                report(&mut rep, &cut, false, e2);
+                report(&mut rep, &cut, false, e, prev);
             }
             if len >= 2 {
-                if let Err(e) = run_twin(&h) {
-                    report(&mut rep, &h, true, e);
+                let prev = PREVIOUS.with(|p| p.borrow().clone());
+                let r = run_twin(&h);
+                remember(&h, true);
+                if let Err(e) = r {
+                    report(&mut rep, &h, true, e, prev);
                 }
             }
         }
@@ -310,6 +343,14 @@ pub fn run(ctx: &Ctx) -> Report {
 }
 
 pub fn replay(text: &str) -> Result<String, String> {
+    // the history that ran just before on the same thread (its instances are gone; what it left in a
+    // static or a thread-local is not)
+    if let Some(p) = field(text, "preceded-by").and_then(parse) {
+        let _ = run_history(&p);
+    }
+    if let Some(p) = field(text, "preceded-by-twin").and_then(parse) {
+        let _ = run_twin(&p);
+    }
     if let Some(h) = field(text, "sequential-twin").and_then(parse) {
         return match run_twin(&h) {
             Err(e) => Ok(e),
